@@ -91,6 +91,9 @@ def _mk_part(pid, divs, voices, staves, octave, missing_staff=False, with_rest=T
     def extra(p, byid):
         p.add(sc.Words("espr. " + pid, staff=None if missing_staff else 1), bar // 2)
         p.add(sc.ConstantLoudnessDirection("p", staff=None if missing_staff else 1), 0)
+        p.add(sc.ConstantLoudnessDirection("f", staff=None if missing_staff else 1), bar)
+        p.add(sc.ImpulsiveLoudnessDirection("sfz", staff=None if missing_staff else 1), bar + bar // 2)
+        p.add(sc.DynamicTempoDirection("rit.", staff=None if missing_staff else 1), 2 * bar, 3 * bar)
     return G.build_part(pid, divs, ts=((0, ts[0], ts[1]),), notes=notes, rests=rests, key=(1 if pid == "P0" else -2, "major"), clefs=[] if missing_staff else [(0, 1, "G", 2)],
                         measures=[(0, bar), (bar, 2 * bar), (2 * bar, 3 * bar)], extra=extra)
 
@@ -138,6 +141,8 @@ def bounded(b):
                                 "ks": [(k.start.t * (L // spec[0][0]), k.fifths) for k in parts[0].iter_all(sc.KeySignature)]}
                 words = sorted((Fraction(w.start.t, s[0]), w.text) for p, s in zip(parts, spec) for w in p.iter_all(sc.Words))
                 rests = sorted((Fraction(r.start.t, s[0]), Fraction(r.end.t - r.start.t, s[0])) for p, s in zip(parts, spec) for r in p.iter_all(sc.Rest))
+                dirs = sorted((type(d).__name__, d.text, Fraction(d.start.t, s[0]), Fraction(d.end.t, s[0]) if d.end is not None else None) for p, s in zip(parts, spec)
+                              for d in p.iter_all(sc.Direction, include_subclasses=True))
                 if kind == "score":
                     arg = score
                 elif kind == "list":
@@ -192,6 +197,21 @@ def bounded(b):
                 gw = sorted((Fraction(w.start.t, L), w.text) for w in merged.iter_all(sc.Words))
                 gr = sorted((Fraction(r.start.t, L), Fraction(r.end.t - r.start.t, L)) for r in merged.iter_all(sc.Rest))
                 b.case("merge/rests_and_non_structural_elements_at_the_same_musical_time", gw == words and gr == rests, case, "words %r rests %r" % (gw, gr))
+                gd = sorted(((type(d).__name__, d.text, Fraction(d.start.t, L), Fraction(d.end.t, L) if d.end is not None else None) for d in merged.iter_all(sc.Direction, include_subclasses=True)),
+                            key=repr)
+                b.case("merge/directions_once_each_at_the_same_musical_time", gd == sorted(dirs, key=repr), case,
+                       "directions %r, the inputs hold %r" % ([(a, t, str(x)) for a, t, x, _ in gd][:8], [(a, t, str(x)) for a, t, x, _ in sorted(dirs, key=repr)][:8]))
+    # parts that share an id (two separately loaded single-part files) are still two parts
+    pa, pb = _mk_part("P1", 2, [1], 1, 4), _mk_part("P1", 3, [1, 2], 1, 3)
+    for n in pb.iter_all(sc.GenericNote, include_subclasses=True):
+        n.id = "x" + n.id
+    case = {"same_part_id": True}
+    ok, sco = b.guard("merge/no_exception", case, lambda: G.simple_score([pa, pb]))
+    if ok:
+        na = sco.note_array()
+        ok2, mg = b.guard("merge/no_exception", case, lambda: sc.merge_parts(sco))
+        b.case("merge/score_keeps_distinct_parts_with_equal_ids", len(sco.parts) == 2 and len(na) == len(pa.notes_tied) + len(pb.notes_tied) and (not ok2 or len(mg.notes_tied) == len(na)), case,
+               "%d parts in the score, %d rows, %d + %d notes given" % (len(sco.parts), len(na), len(pa.notes_tied), len(pb.notes_tied)))
     # single part returned as is
     for wrap in ("list", "group", "score"):
         p = _mk_part("P0", 2, [1], 1, 4)
